@@ -16,7 +16,7 @@ ASSUMPTIONS = ['dz >= 2^-20 (below float resolution of 3.0 the real loop cannot 
 
 
 def curve(rng, n):
-    kind = rng.choice(['steps', 'decay', 'plateaus', 'noisy', 'cliffs'])
+    kind = rng.choice(['steps', 'decay', 'plateaus', 'noisy', 'cliffs', 'grid', 'decimal'])
     contiguous = rng.random() < 0.35        # x = 0..n-1: the point count is then one more than the largest x
     x = [0 if contiguous else rng.choice([0, 1])]
     for _ in range(n - 1):
@@ -40,6 +40,25 @@ def curve(rng, n):
             else:
                 cur *= 0.995
         cur = math.floor(cur * 1024) / 1024
+    if kind == 'grid':
+        # heights on a coarse dyadic grid from 1 down to 0: with dyadic dy the separation (y_max - y_min)*dy is a grid step, so points
+        # lie EXACTLY one separation above / below an accepted knee (the window test and the acceptance test meet at equality)
+        g = rng.choice([8, 16, 32])
+        y, cur = [], g
+        for i in range(n):
+            y.append(cur / g)
+            if rng.random() < 0.45:
+                cur = max(0, cur - rng.choice([1, 1, 2, 3]))
+        y[-1] = 0.0
+        y[0] = 1.0
+    if kind == 'decimal':
+        # two-decimal miss ratios (0.7, 0.6, 0.3 …): NOT dyadic, so y0 + h and |y - y0| >= h round differently in floating point;
+        # only the direct predicates (terminates, valid, ordered, separated up to rounding noise) are evaluated on this family
+        y, cur = [], rng.choice([1.0, 0.9, 0.7])
+        for i in range(n):
+            y.append(round(cur, 2))
+            if rng.random() < 0.4:
+                cur = max(0.0, cur - rng.choice([0.1, 0.1, 0.2, 0.3, 0.05]))
     return np.array(list(zip(map(float, x), y)), float), kind
 
 
@@ -85,7 +104,7 @@ def one(ctx, pts, dx, dy, dz, x_max, y_range, family):
                 ctx.fail('predicate', 'knees-at-least-y-height-apart', site, case, dict(out=out, pair=[a, b], gap=float(gap), h=float(h)))
                 return
     # ---- correspondence
-    if n >= 4 and ymin != 1:
+    if n >= 4 and ymin != 1 and 'decimal' not in family:
         z = uz.zscore_array(x, grad.csd(x, y))
         if not np.all(np.isfinite(z)):
             ctx.tag('oracle-nonfinite')
@@ -124,6 +143,8 @@ def run(ctx):
         dyad = [2.0 ** -k for k in range(0, 7)]
         dx = rng.choice(dyad + [0.05, 0.1])
         dy = rng.choice(dyad + [0.05]) if rng.random() < 0.85 else rng.choice([0.1, 0.3])
+        if fam == 'decimal':
+            dy = rng.choice([0.1, 0.2, 0.05, 0.3, 0.25])
         dz = rng.choice([1.0, 0.5, 0.25, 0.125, 0.0625, 0.05, 0.1])
         x_max = None if rng.random() < 0.7 else int(pts[-1, 0]) + rng.randrange(0, 50)
         y_range = None if rng.random() < 0.7 else [1.0, 0.0]
